@@ -8,6 +8,7 @@ p=/verif/seeded/$name/patch.diff
 [ -z "$(git -C /repo status --porcelain)" ] || { echo "/repo is dirty"; exit 2; }
 git -C /repo apply $p || exit 2
 trap 'git -C /repo checkout -- . ; git -C /repo clean -fdq' EXIT
+cp /verif/known_findings.json /tmp/verif-seedrun/ 2>/dev/null || { mkdir -p /tmp/verif-seedrun; cp /verif/known_findings.json /tmp/verif-seedrun/; }
 hit=""
 for id in $ids; do
   out=$(/verif/bin/verifsa check $id -root /tmp/verif-seedrun 2>&1)
